@@ -92,7 +92,9 @@ def make_step_harness(cfg, tw):
         arg = {}
         if op == "insert":
             e = eng.int("e", 0, N - 1)
-            eng.assume(cost_at(zcol, e.e, N) == WHITE)
+            # precondition: the element is not queued -- never queued (WHITE) or already returned (BLACK: the
+            # statement quantifies over every interleaving, so an identifier may be inserted again)
+            eng.assume(cost_at(zcol, e.e, N) != GRAY)
             arg["e"] = e
             ret = h.insert(e)
         elif op == "remove":
@@ -240,13 +242,13 @@ def make_history_harness(cfg, tw):
             kind = eng.choose(3, "op%d" % step)      # 0 insert/update-white, 1 update-gray, 2 remove
             if kind == 0:
                 e = eng.choose(N, "el%d" % step)
-                if e in queued or e in done:
-                    raise core.PathAbort()           # precondition: element WHITE
+                if e in queued:
+                    raise core.PathAbort()           # precondition: element not queued
                 c = newcost()
                 use_update = eng.choose(2, "how%d" % step)
                 full = len(queued) == N
                 if use_update:
-                    if full:
+                    if full or e in done:            # update() queues WHITE elements only
                         raise core.PathAbort()
                     h.update(e, c)
                     ok = True
@@ -302,7 +304,7 @@ def make_history_harness(cfg, tw):
                 chk("drain-extremal[%d]" % x, _better(policy, rc, to_real(cx)))
             del queued[r]
             done.append(r)
-        chk("exactly-once", sorted(done) == sorted(inserted) and len(set(done)) == len(done))
+        chk("exactly-once", sorted(done) == sorted(inserted))     # multiset: one return per insertion
         chk("empty-after-drain", bool(h.is_empty()) is True and h.remove() is False)
         return dict(trace=trace)
     return harness
